@@ -1,9 +1,12 @@
 package worlds
 
 import (
+	"context"
 	"fmt"
 	"strings"
 	"time"
+
+	"github.com/fluffle/goirc/client"
 
 	"verifsim/simnet"
 	"verifsim/simrt"
@@ -35,7 +38,24 @@ func floodRun(e *Env) {
 	preGap := []time.Duration{0, 0, time.Second, 30 * time.Second}[g.Intn(4)]
 	simrt.Sleep(preGap)
 	connectAt := e.S.Now()
-	if !s.connect() {
+	// in some runs the application cancels the context it connected with while
+	// lines are being held back: whatever is still written must be written at
+	// the time the rule gives, never earlier
+	cancelRun := g.Pct(12)
+	cancelDelay := []time.Duration{100 * time.Millisecond, time.Second, 3 * time.Second, 7 * time.Second, 15 * time.Second}[g.Intn(5)]
+	ctx, cancel := context.WithCancel(context.Background())
+	defer cancel()
+	disconnected := false
+	s.c.HandleFunc(client.DISCONNECTED, func(*client.Conn, *client.Line) { disconnected = true })
+	if cancelRun {
+		e.S.Count("fault.context-cancelled-during-a-flood-hold")
+		if err := s.c.ConnectContext(ctx); err != nil {
+			e.Violation("harness-connect", "Connect failed: %v", err)
+			return
+		}
+		simrt.BlockFor("session", "welcome", time.Hour, func() bool { return s.ready })
+		simrt.Settle(time.Second)
+	} else if !s.connect() {
 		return
 	}
 	nsenders := 1
@@ -47,6 +67,9 @@ func floodRun(e *Env) {
 	var order []*floodLine // issue order for the single-sender case (texts may repeat)
 	floodNow := startFlood
 	phases := g.Range(1, 4)
+	if cancelRun {
+		phases = 1
+	}
 	total := 0
 	seq := 0
 	for ph := 0; ph < phases && !e.S.Failed(); ph++ {
@@ -117,11 +140,21 @@ func floodRun(e *Env) {
 				}
 				done++
 			}
-			if nsenders == 1 {
+			if nsenders == 1 && !cancelRun {
 				run()
 			} else {
 				e.S.Spawn(fmt.Sprintf("flood-sender%d.%d", ph, t), run)
 			}
+		}
+		if cancelRun {
+			simrt.Sleep(cancelDelay)
+			cancel()
+			if !simrt.BlockFor("flood", "DISCONNECTED after the context was cancelled", time.Duration(total)*7*time.Second+10*time.Minute, func() bool { return disconnected }) {
+				e.Violation("stall", "the connect context was cancelled but the connection did not end\n%s", e.S.TaskDump())
+				return
+			}
+			simrt.Settle(10 * time.Second)
+			break
 		}
 		simrt.BlockFor("flood", "senders", 50*time.Hour, func() bool { return done == nsenders })
 		// quiescence: every line written (7 s per line covers every delay), but
@@ -182,7 +215,7 @@ func floodRun(e *Env) {
 		}
 		ws = append(ws, x)
 	}
-	if len(ws) != total+2 {
+	if len(ws) != total+2 && !cancelRun {
 		e.Violation("harness-lines-missing", "%d lines on the wire, expected %d (connection up, server reading)", len(ws), total+2)
 		return
 	}
